@@ -89,10 +89,19 @@ package client
 //@ ensures_ok (cookie.DatabaseName in o.databases) ==> !o.databases[cookie.DatabaseName].deferUpdates
 //@ ensures_ok (cookie.DatabaseName in o.databases) ==> len(o.databases[cookie.DatabaseName].deferredUpdates) == 0
 
+// Without an explicit field list the request names the columns of the table the
+// model has a field for - all of them, and no column that could not be stored:
+// a modification carrying an un-modelled column would be rejected as a whole and
+// the modelled columns would go stale (C01).
 //@ func newMonitorRequest
-//@ requires data != nil
+//@ requires data != nil && data.Metadata.TableSchema != nil
 //@ modifies nothing
+//@ ensures len(fields) == 0 && result0 != nil ==> (forall i: int :: 0 <= i && i < len(result0.Columns) ==> ((result0.Columns[i] in data.Metadata.Fields) && (result0.Columns[i] in data.Metadata.TableSchema.Columns)))
+//@ ensures len(fields) == 0 && result0 != nil ==> (forall c: string :: (c in data.Metadata.Fields) && (c in data.Metadata.TableSchema.Columns) ==> (exists i: int :: 0 <= i && i < len(result0.Columns) && result0.Columns[i] == c))
 //@ loop 1 invariant fresh(columns) || columns == nil
+//@ loop 1 invariant 0 <= len(columns) && len(columns) <= cap(columns) && (cap(columns) > 0 ==> fresh(columns))
+//@ loop 1 invariant forall i: int :: 0 <= i && i < len(columns) ==> ((columns[i] in data.Metadata.Fields) && (columns[i] in data.Metadata.TableSchema.Columns))
+//@ loop 1 invariant forall c: string :: visited(c) && (c in data.Metadata.Fields) ==> (exists i: int :: 0 <= i && i < len(columns) && columns[i] == c)
 
 // ---- condition.go (C08): WhereAll = all conditions in one list, WhereAny = one
 // list per condition; Matches = union over the lists --------------------------
